@@ -9,6 +9,7 @@ import (
 	"berty.tech/go-orbit-db/accesscontroller"
 	"berty.tech/go-orbit-db/internal/vstub"
 	"berty.tech/go-orbit-db/internal/vstubodb"
+	"berty.tech/go-orbit-db/stores"
 	"berty.tech/go-orbit-db/stores/operation"
 	cid "github.com/ipfs/go-cid"
 )
@@ -91,6 +92,25 @@ func VerifC10Mixed() {
 	a, env := openAC("a", blocks, ac)
 	if a == nil {
 		return
+	}
+	// every replicated event announces entries the log HOLDS at that instant, each at most once (C16)
+	if hb, ok := env.Bus.(*vstub.HookBus); ok {
+		var announced []string
+		hb.OnEmit = func(evt interface{}) {
+			e, isRepl := evt.(stores.EventReplicated)
+			if !isRepl {
+				return
+			}
+			for _, x := range e.Entries {
+				_, held := a.OpLog().Get(x.GetHash())
+				vstub.Assert(held, "C16 a replicated event lists only entries that were merged")
+				for _, h := range announced {
+					vstub.Assert(h != x.GetHash().String(), "C16 a merged entry is announced by one replicated event only")
+				}
+				announced = append(announced, x.GetHash().String())
+			}
+		}
+		defer func() { hb.OnEmit = nil }()
 	}
 	// valid entries by the authorised remote writer w2
 	lw, v1 := appendAs(env, nil, a.id, w2, []byte("v1"))
@@ -196,3 +216,78 @@ func VerifC10Mixed() {
 
 var _ = entry.NewLamportClock
 var _ = cid.Undef
+
+// VerifC10ForgedInBatch: a fetched batch mixes genuine entries of writer w1 with
+// a FORGED-AUTHOR entry naming w1's id (made by w2, who is a writer too, with its
+// own key) that a valid entry of w2 links to; the forged entry links on to w1's
+// genuine head, so it is fetched - and judged - BEFORE w1's genuine entries in
+// the same batch.  Whatever is done with the forged entry, w1's genuine entries
+// become visible: at once, or at the latest when w1's head is announced again.
+func VerifC10ForgedInBatch() {
+	blocks := vstub.NewBlocks(nil)
+	prov := vstub.NewProvider()
+	w1 := vstub.NewIdentity("w1", prov)
+	w2 := vstub.NewIdentity("w2", prov)
+	ac := vstubodb.Writers(vstub.IDOf("a"), vstub.IDOf("w1"), vstub.IDOf("w2"))
+	a, env := openAC("a", blocks, ac)
+	if a == nil {
+		return
+	}
+	ctx := context.Background()
+	n := 1 + vstub.NdChoice("w1-entries", 2)
+	var l1 *ipfslog.IPFSLog
+	var genuine []ipfslog.Entry
+	for k := 0; k < n; k++ {
+		var e ipfslog.Entry
+		l1, e = appendAs(env, l1, a.id, w1, []byte{'g', byte(k)})
+		if e == nil {
+			return
+		}
+		genuine = append(genuine, e)
+	}
+	head1 := genuine[n-1]
+	// w2 continues w1's log with an entry whose author fields are forged
+	l2, _ := ipfslog.NewLog(env.IPFS, w2, &ipfslog.LogOptions{ID: a.id, IO: env.IO})
+	if _, err := l2.Join(l1, -1); err != nil {
+		vstub.Fail("C10 harness: join failed")
+		return
+	}
+	_, base := appendAs(env, l2, a.id, w2, []byte("forged"))
+	if base == nil {
+		return
+	}
+	f := base.Copy()
+	f.SetIdentity(&idp.Identity{ID: w1.ID, PublicKey: w2.PublicKey, Signatures: w2.Signatures, Type: w2.Type})
+	forged := readdress(env, f)
+	if forged == nil {
+		return
+	}
+	// a valid entry of w2 on top of the forged one
+	top, err := entry.CreateEntryWithIO(ctx, env.IPFS, w2, &entry.Entry{
+		LogID: a.id, Payload: []byte("top"), Next: []cid.Cid{forged.GetHash()}, Refs: []cid.Cid{},
+		Clock: entry.NewLamportClock(w2.PublicKey, forged.GetClock().GetTime()+1),
+	}, nil, env.IO)
+	if err != nil {
+		vstub.Fail("C10 CreateEntryWithIO failed")
+		return
+	}
+	msg := []ipfslog.Entry{top.Copy()}
+	if vstub.NdChoice("w1-head-alongside", 2) == 1 {
+		msg = append(msg, head1.Copy())
+		vstub.Cover("genuine-head-alongside")
+	}
+	_ = a.Sync(ctx, msg) // may report an error
+	vstub.WaitIdle()
+	vstub.Cover("mixed-batch-processed")
+	vstub.Assert(!inLog(a, forged), "C10/C03 the forged-author entry is not in the log")
+	// honest re-announcement of w1's head
+	if err := a.Sync(ctx, []ipfslog.Entry{head1.Copy()}); err != nil {
+		vstub.Fail("C10 honest re-announcement returned an error")
+	}
+	vstub.WaitIdle()
+	vstub.Cover("re-announced")
+	for _, e := range genuine {
+		vstub.Assert(inLog(a, e), "C10 genuine entries fetched in the same batch as a forged-author entry become visible once announced again")
+		vstub.Assert(inView(a, e), "C10 ... and are in the view")
+	}
+}
